@@ -1,6 +1,6 @@
 # C11 canonical_form is an exact, order-stable decomposition.
 
-from hplverif import astx, core, findings, gen, lib, mast
+from hplverif import astx, core, findings, gen, lib, mast, sem
 from hplverif.checks import c14
 from hplverif.core import Violation
 from hplverif.tape import Chooser, from_tape
@@ -286,7 +286,7 @@ def shard(ctx, shard_no, nshards, per_shape):
     with ctx.timed('vacuity-table'):
         stride = 8 if ctx.tier == 'quick' else 1
         for i, m in enumerate(gen.vacuity_table()):
-            if i % (stride * nshards) != (ctx.seed % stride) * nshards + shard_no:
+            if stride * nshards > 1 and sem._mix(i, ctx.seed) % (stride * nshards) != shard_no:
                 continue
             inp = {'m': m, 'text': mast.render(m)}
             try:
